@@ -208,7 +208,7 @@ func TestVerifC13(t *testing.T) {
 	res.Rule = "per case: 1-6 consecutive days with 0-40 stored reports each (0-3 programs with bucketed counters, duplicate X within and across days, a few reports just under the 100 KiB upload limit through long stack names or fields), merged through the real /merge handler (a day with 300 reports under a file-descriptor limit of 64 above what is open) and charted through /chart for the whole range, sub-ranges and a range containing a day that was never merged; all single days and the whole range are also charted by overlapping requests (three rounds), each judged against its own range; after that a stored report is replaced under the same name (usually by a much smaller one), sometimes another arrives, and the day is merged and the range charted again (twice, restoring the set in between); the same set is stored twice more in different creation orders and charted 3 times in one process. Oracle: merged object has one JSON line per stored object decoding to the stored report; NumReports = reports in range; every partition datum = number of distinct X carrying that (program, chart, bucket), zero data are really zero, omitted charts really empty; chart bytes identical across orders and repetitions; missing day => 404 and no chart object. distinct = distinct report sets; non-trivial = >= 2 reports"
 	base := vtmp("c13-")
 	defer os.RemoveAll(base)
-	n := verifrt.Scale(150, 4000)
+	n := verifrt.Scale(150, 2400)
 	for i := 0; i < n; i++ {
 		if !verifrt.WantCase(check, i) {
 			continue
